@@ -618,7 +618,13 @@ Definition canon (v : val F) : val F := match v with VTuple l => VList l | _ => 
 
 (* OFloatUnchecked: a float result whose value the executable instance does not model
    (`mod` with an infinite or NaN operand); only the dispatch is compared *)
-Inductive obs := OVal (v : val F) | OErr (e : err) | OFloatUnchecked | OOtherExc.
+(* OBigInt: an integer result too large to be written down as a literal (more than 4300
+   decimal digits cannot even be printed by the implementation's host): observed through its
+   sign, bit length and residues modulo 2^61-1 and 10^9+7 *)
+Inductive obs := OVal (v : val F) | OErr (e : err) | OFloatUnchecked | OOtherExc
+               | OBigInt (neg : bool) (bits r1 r2 : Z).
+Definition big_m1 : Z := 2305843009213693951%Z.
+Definition big_m2 : Z := 1000000007%Z.
 
 (* `a OP b`, or `(a OP b) OP2 c` when c_then is given; then the unary operators of c_post are
    applied to the result, innermost first (sign chains: `- + a` is UPos with c_post [UNeg]) *)
@@ -637,6 +643,9 @@ Definition res_matches (r : res F) (o : obs) : bool :=
   | RVal (VFloat _), OFloatUnchecked => true
   | RErr EUnmodelled, OFloatUnchecked => true
   | RVal v, OVal w => val_same (canon v) w
+  | RVal (VInt z), OBigInt n b r1 r2 =>
+    Bool.eqb (Z.ltb z 0) n && Z.eqb (Z.log2 (Z.abs z) + 1) b
+    && Z.eqb (Z.modulo (Z.abs z) big_m1) r1 && Z.eqb (Z.modulo (Z.abs z) big_m2) r2
   | RErr EUnmodelled, _ => false
   | RErr e, OErr e' => err_eqb e e'
   | _, _ => false
@@ -676,6 +685,7 @@ Definition gcase_ok (tables : cfg -> op -> optable) (c : case) : bool :=
 End Cases.
 
 Arguments OVal {F}. Arguments OErr {F}. Arguments OFloatUnchecked {F}. Arguments OOtherExc {F}.
+Arguments OBigInt {F}.
 Arguments Build_case {F}.
 Arguments c_cfg {F}. Arguments c_op {F}. Arguments c_args {F}. Arguments c_then {F}.
 Arguments c_ran {F}. Arguments c_obs {F}. Arguments c_post {F}.
